@@ -34,6 +34,7 @@ func runC16(p *load.Program, r *oblig.Report) {
 	c16Framing(p, r)
 	c16NoDecoderLimits(p, r)
 	c16SnappyEncoders(p, r)
+	c16ReadFromCounts(p, r)
 }
 
 // c16SnappyEncoders: whatever compression level is chosen, the blocks the snappy codec writes are in the Snappy block
@@ -97,6 +98,19 @@ func c16SnappyEncoders(p *load.Program, r *oblig.Report) {
 func c16NoDecoderLimits(p *load.Program, r *oblig.Report) {
 	const rule = "C16.R7 decoders accept every valid stream of their format"
 	banned := map[string]bool{"WithDecoderMaxWindow": true, "WithDecoderMaxMemory": true}
+	// gzip: a stream may consist of several members (RFC 1952; reference encoders produce them after Reset or when
+	// files are concatenated): the reader must stay in multistream mode
+	var single []string
+	for _, fn := range pkgFuncs(p, "compress/gzip") {
+		an.EachInstr(fn, func(ins ssa.Instruction) {
+			if c, ok := ins.(*ssa.Call); ok && c.Call.StaticCallee() != nil && an.RefFuncName(c.Call.StaticCallee()) == "Multistream" {
+				if k, isK := c.Call.Args[len(c.Call.Args)-1].(*ssa.Const); !isK || !constant.BoolVal(k.Value) {
+					single = append(single, "Multistream(false) at "+p.Pos(c.Pos()))
+				}
+			}
+		})
+	}
+	r.Check(len(single) == 0, rule, "compress/gzip reads every member of a gzip stream", "-", "no Multistream(false)", strings.Join(single, "; "))
 	var hits []string
 	nNew := 0
 	for _, rel := range []string{"compress", "compress/gzip", "compress/snappy", "compress/lz4", "compress/zstd"} {
@@ -980,4 +994,46 @@ func globalBytes(p *load.Program, rel, name string) []int64 {
 		}
 	})
 	return out
+}
+
+// c16ReadFromCounts: io.Reader may return n > 0 together with an error (io.EOF included): xerialWriter.ReadFrom
+// accounts for the bytes of every Read before it looks at the error.
+func c16ReadFromCounts(p *load.Program, r *oblig.Report) {
+	const rule = "C16.R6 xerial framing"
+	fn := p.Func("compress/snappy", "(*xerialWriter).ReadFrom")
+	if fn == nil {
+		r.Lost(rule, "compress/snappy.(*xerialWriter).ReadFrom")
+		return
+	}
+	var read *ssa.Call
+	an.EachInstr(fn, func(ins ssa.Instruction) {
+		if c, ok := ins.(*ssa.Call); ok && c.Call.IsInvoke() && c.Call.Method.Name() == "Read" {
+			read = c
+		}
+	})
+	if read == nil {
+		r.Lost(rule, "r.Read in compress/snappy.(*xerialWriter).ReadFrom")
+		return
+	}
+	ok, bad := an.MustPass(fn, an.PointOf(read), func(i ssa.Instruction) bool {
+		st, isSt := fieldStoreIs2(i, "input")
+		return isSt && st != nil
+	}, nil)
+	where := ""
+	if bad != nil {
+		where = "the exit at " + p.Pos(bad.Pos()) + " is reached before the bytes of the last Read were appended"
+	}
+	r.Check(ok, rule, "compress/snappy.(*xerialWriter).ReadFrom keeps the bytes a Read returned together with an error", p.Pos(read.Pos()), "x.input = x.input[:len(x.input)+n] before err is examined", where)
+}
+
+func fieldStoreIs2(ins ssa.Instruction, field string) (*ssa.Store, bool) {
+	st, ok := ins.(*ssa.Store)
+	if !ok {
+		return nil, false
+	}
+	fa, ok := st.Addr.(*ssa.FieldAddr)
+	if !ok || an.FieldName(fa.X.Type(), fa.Field) != field {
+		return nil, false
+	}
+	return st, true
 }
